@@ -4,9 +4,29 @@
 use crate::gen::json as gj;
 use crate::report::hex;
 use crate::rng::Rng;
+use crate::val::Val;
 use serde_json::json;
 use std::collections::BTreeMap;
 use std::io::Write;
+
+/// Values by node index in `Rendered::nodes` order (for a key node: the value the key names).
+fn node_values(v: &Val, out: &mut Vec<Val>) {
+    out.push(v.clone());
+    match v {
+        Val::Arr(xs) => {
+            for x in xs {
+                node_values(x, out);
+            }
+        }
+        Val::Obj(kv) => {
+            for (_, x) in kv {
+                out.push(x.clone());
+                node_values(x, out);
+            }
+        }
+        _ => {}
+    }
+}
 
 pub fn run(kind: &str, seed: u64, args: &BTreeMap<String, String>, out: &mut dyn Write) -> Result<(), String> {
     let n: usize = args.get("n").and_then(|s| s.parse().ok()).unwrap_or(100);
@@ -60,7 +80,25 @@ pub fn run(kind: &str, seed: u64, args: &BTreeMap<String, String>, out: &mut dyn
                     }
                     _ => gj::gen_doc(&mut r),
                 };
-                let line = json!({"text_hex": hex(&rd.bytes), "val": v.to_tagged(), "depth": v.depth(), "dups": v.has_dup_keys(), "nodes": v.node_count()});
+                let mut line = json!({"text_hex": hex(&rd.bytes), "val": v.to_tagged(), "depth": v.depth(), "dups": v.has_dup_keys(), "nodes": v.node_count()});
+                if let Some(k) = args.get("spans").and_then(|s| s.parse::<usize>().ok()) {
+                    // ground-truth spans for the locate monitors: a sample of k nodes (all if fewer)
+                    let mut vals: Vec<Val> = Vec::with_capacity(rd.nodes.len());
+                    node_values(&v, &mut vals);
+                    let mut picks: Vec<usize> = (0..rd.nodes.len()).collect();
+                    r.shuffle(&mut picks);
+                    picks.truncate(k);
+                    let spans: Vec<serde_json::Value> = picks
+                        .iter()
+                        .map(|&i| {
+                            let nd = &rd.nodes[i];
+                            let own = if nd.kind == "key" { Val::Str(nd.text.clone().unwrap_or_default()) } else { vals[i].clone() };
+                            json!({"start": nd.start, "end": nd.end, "kind": nd.kind, "is_key": nd.kind == "key",
+                                   "value": vals[i].to_tagged(), "own": own.to_tagged()})
+                        })
+                        .collect();
+                    line["spans"] = json!(spans);
+                }
                 writeln!(out, "{line}").map_err(|e| e.to_string())?;
             }
             Ok(())
